@@ -306,6 +306,34 @@ func probeDecode(o *Out, data []byte) {
 		o.Fail("C03", "spans", "root Source() is not the input with outer whitespace trimmed", hexIn, hexOrDash(trimmed), hexOrDash(root.Source()))
 	}
 	checkSpans(o, root, data, hexIn)
+	// what Marshal/Source/String hand out must not be a window into the document that the caller can grow into: append to
+	// every Marshal result (an aliasing slice has the rest of the document as spare capacity) and look at the document again
+	var all []*ajson.Node
+	var walk func(n *ajson.Node, depth int)
+	walk = func(n *ajson.Node, depth int) {
+		if depth > 64 || len(all) > 200 {
+			return
+		}
+		all = append(all, n)
+		for _, c := range n.Inheritors() {
+			walk(c, depth+1)
+		}
+	}
+	walk(root, 0)
+	trimmed = append([]byte(nil), trimmed...) // a copy: `trimmed` was a window into the document itself
+	o.Check("C03", "marshal-is-a-copy")
+	for _, n := range all {
+		if out, err := ajson.Marshal(n); err == nil {
+			out = append(out, 0xEE, 0xEE)
+			_ = out
+		}
+	}
+	if !bytes.Equal(root.Source(), trimmed) {
+		o.Fail("C03", "marshal-is-a-copy", "appending to the result of Marshal(node) changed the document: untouched nodes no longer reproduce their source", hexIn, hexOrDash(trimmed), hexOrDash(root.Source()))
+	}
+	if out, err := ajson.Marshal(root); err != nil || !bytes.Equal(out, trimmed) {
+		o.Fail("C03", "marshal-is-a-copy", "after appending to earlier Marshal results, Marshal(root) is no longer the source text", hexIn, hexOrDash(trimmed), hexOrDash(out))
+	}
 }
 
 // viablePrefix: p is a prefix of some JSON text. Decided with encoding/json's scanner: feed p, then
@@ -632,6 +660,16 @@ func streamDecode(o *Out, r *Rng, tier string) {
 		}
 		if probe {
 			safe("reading the parsed tree (getters, Source, Marshal, String, JSONPath)", data, func() string { probeDecode(o, data); return "" })
+		}
+	}
+	// every read accessor on a nil node, and on one node of every type (parsed and constructed)
+	{
+		var nilNode *ajson.Node
+		doc := ajson.Must(ajson.Unmarshal([]byte(`{"n":null,"i":1,"s":"x","b":true,"a":[1,[2]],"o":{"k":{}},"r":1e400}`)))
+		others := []*ajson.Node{doc, doc.MustKey("a"), doc.MustKey("s"), doc.MustKey("r"), ajson.NullNode(""), ajson.ArrayNode("", nil), ajson.ObjectNode("", nil), ajson.NumericNode("k", 2)}
+		apiSweep(o, nilNode, others, "(*Node)(nil)")
+		for i, x := range others {
+			apiSweep(o, x, others, fmt.Sprintf("node#%d(type %d)", i, int(x.Type())))
 		}
 	}
 	for _, w := range decodeCorpus {
